@@ -413,6 +413,81 @@ def parse_all(app: Any, sources: list[tuple[str, str]]) -> list[tuple[str, Any]]
 
 
 # ---------------------------------------------------------------------------------------------
+# boundary lengths: stored forms whose byte length is an exact multiple of a block size (anything written or read in blocks)
+
+BLOCKS = [1024, 4096, 8192, 512, 65536]
+
+
+def stored_length(t: Any) -> int:
+	"""byte length of the stored form of a lark tree, by the harness's own json.dumps over Serialization.dumps (not by
+	EntryStored.save, whose writing is what the boundary cases examine)"""
+	from rogw.tranp.implements.syntax.lark.entry import Serialization
+	return len(json.dumps(Serialization.dumps(t), separators=(',', ':')).encode('utf-8'))
+
+
+def pad_source_to_block(parse: Any, src: str, block: int, multiple: int = 0) -> str | None:
+	"""`src` followed by a comment line padded until the stored form of its tree is exactly `multiple * block` bytes long (the
+	next multiple of `block` when `multiple` is 0). A pad character adds one byte, now and then one more when a column
+	number gains a digit — hence the loop. None when the parser refuses the text or no fixed point is reached."""
+	n = 1
+	for _ in range(12):
+		text = src + '# ' + 'p' * n + '\n'
+		try:
+			size = stored_length(parse(text))
+		except Exception:  # noqa: BLE001
+			return None
+		target = multiple * block if multiple else -(-size // block) * block
+		if size == target:
+			return text
+		if size > target and not multiple:
+			target += block
+		n += target - size
+		if n < 1:
+			return None
+	return None
+
+
+def pad_tree_to_block(t: Any, block: int) -> Any:
+	"""the lark tree with the value of its first token padded so that the stored form is an exact multiple of `block` bytes
+	(positions are untouched, so one step suffices); None for a tree without tokens"""
+	import lark
+
+	def first_token(e: Any) -> tuple[Any, int] | None:
+		if type(e) is lark.Tree:
+			for k, c in enumerate(e.children):
+				if type(c) is lark.Token:
+					return e, k
+				r = first_token(c)
+				if r is not None:
+					return r
+		return None
+
+	hit = first_token(t)
+	if hit is None:
+		return None
+	parent, k = hit
+	old = parent.children[k]
+	pad = (-stored_length(t)) % block
+	new = lark.Token(old.type, str(old.value) + 'q' * pad)
+	new.line, new.column, new.end_line, new.end_column = old.line, old.column, old.end_line, old.end_column
+	parent.children[k] = new
+	return t if stored_length(t) % block == 0 else None
+
+
+def boundary_sources(parse: Any, rng: random.Random, n: int) -> list[tuple[str, str]]:
+	"""(label, source) of modules whose stored form is exactly 1 block, exactly k blocks, or a multiple of a larger block"""
+	out: list[tuple[str, str]] = []
+	plans: list[tuple[int, int]] = [(1024, 1), (1024, 0), (4096, 0), (8192, 0), (512, 0), (1024, 0)]
+	for i in range(n):
+		block, multiple = plans[i % len(plans)]
+		base = '' if multiple == 1 else pygen.gen_module(rng, n_statements=rng.randint(1, 4))[0]
+		text = pad_source_to_block(parse, base, block, multiple)
+		if text is not None:
+			out.append((f'boundary#{i}:stored-form={multiple or "k"}x{block}', text))
+	return out
+
+
+# ---------------------------------------------------------------------------------------------
 # streams
 
 
@@ -702,6 +777,22 @@ def search_views(ctx: Ctx) -> SearchResult:
 	hist: dict[str, int] = {}
 	for i in range(ctx.scale(500, 8000)):
 		trees_.append((f'random#{i}', gen_lark(rng, 1 + i % 5, 1 + i % 5, False, hist)))
+	# boundary lengths: the stored form is exactly one block / a whole number of blocks long
+	from rogw.tranp.syntax.ast.parser import SyntaxParser
+	parser = app.resolve(SyntaxParser)
+
+	def parse(text: str) -> Any:
+		app.source = text
+		return parser(app.main).source
+	for label, text in boundary_sources(parse, rng, ctx.scale(8, 60)):
+		trees_.append((label, parse(text)))
+	for i in range(ctx.scale(24, 300)):
+		try:
+			t = pad_tree_to_block(gen_lark(rng, 2 + i % 3, 2 + i % 4, False, hist), BLOCKS[i % len(BLOCKS)] if i % 3 else 1024)
+		except Exception:  # noqa: BLE001 - a random tree that cannot be dumped is not a boundary case
+			t = None
+		if t is not None:
+			trees_.append((f'boundary-random#{i}', t))
 	seen = set()
 	for label, t in diskproj.bounded(trees_, *diskproj.budgets(ctx), label=lambda x: x[0]):
 		res.cases += 1
@@ -822,6 +913,17 @@ def search_nodes(ctx: Ctx) -> SearchResult:
 		with open(os.path.join(common.REPO, rel), 'rb') as fh:
 			proj.write(rel[:-3].replace(os.sep, '.'), fh.read())
 		modules.append((rel[:-3].replace(os.sep, '.'), rel))
+	# boundary lengths: modules whose stored form is exactly 1024 bytes / a whole number of 1024-, 4096-, 8192-, 512-byte blocks
+	mem = common.MemApp(ctx.tmpdir())
+	from rogw.tranp.syntax.ast.parser import SyntaxParser
+	mem_parser = mem.resolve(SyntaxParser)
+
+	def mem_parse(text: str) -> Any:
+		mem.source = text
+		return mem_parser(mem.main).source
+	for k, (label, text) in enumerate(boundary_sources(mem_parse, rng, ctx.scale(6, 40))):
+		proj.write(f'gen.bound{k}', text)
+		modules.append((f'gen.bound{k}', label))
 	seen = set()
 	exercised = 0
 	for mp, label in diskproj.bounded(modules, *diskproj.budgets(ctx), label=lambda x: x[1]):
